@@ -798,7 +798,7 @@ class SimFS(object):
 
     # ------------------------------------------------------------------
     # harness conveniences (no yield, no faults)
-    def tree(self, path=None):
+    def tree(self, path=None, copy=True):
         """{relative path: bytes | ('l', target)} of all non-directories, plus dirs as None"""
         out = {}
 
@@ -812,7 +812,7 @@ class SimFS(object):
                 elif ch.kind == 'l':
                     out[r] = ('l', ch.target)
                 else:
-                    out[r] = bytes(ch.data)
+                    out[r] = bytes(ch.data) if copy else ch.data
         start = self.inodes[1] if path is None else self._resolve(path)
         rec(start, '' if path is None else os.fspath(path)[len(self.prefix):].rstrip('/'))
         return out
